@@ -281,11 +281,12 @@ func (wd *c8world) enabled(ids []int, seqs []string) []c8op {
 	}
 	for _, k1 := range lv {
 		for _, k2 := range lv {
-			if wd.handles[k1].val.id == wd.handles[k2].val.id {
-				ops = append(ops, c8op{kind: "add", a: k1, b: k2})
-				if k1 != k2 {
-					ops = append(ops, c8op{kind: "comp", a: k1, b: k2})
-				}
+			// add is defined codon by codon (each codon gets the sum of its two weights, the first table's
+			// assignment is kept), so it is also applied to tables of different genetic codes; the compromise
+			// works on per-amino-acid shares and is only applied within one code
+			ops = append(ops, c8op{kind: "add", a: k1, b: k2})
+			if wd.handles[k1].val.id == wd.handles[k2].val.id && k1 != k2 {
+				ops = append(ops, c8op{kind: "comp", a: k1, b: k2})
 			}
 		}
 	}
